@@ -61,6 +61,20 @@ theorem array_lits_ok : Extracted.Config.tomlEncodeSliceStrings = [[91, 93]] ∧
     Extracted.Config.tomlEncodeSliceAsArrayStrings = [nats Config.commaSpace, [44, 10]] ∧
     Extracted.Config.tomlEncodeSliceAsArrayChars = [91, 10, 10, 93] := by decide
 
+/-- `dawn get` and `dawn tidy` are `Config.rewrite`: between `LoadConfigFile` and `WriteConfigFile` the only thing
+assigned is the field `Requirements` of the loaded configuration, that variable is never replaced as a whole, and
+it is what `WriteConfigFile` receives -/
+theorem rewrite_shape_ok :
+    Extracted.Config.getAssignedFields = ["Requirements"] ∧ Extracted.Config.getReassignsConfig = false ∧
+    Extracted.Config.getWritesLoadedConfig = true ∧
+    Extracted.Config.tidyAssignedFields = ["Requirements"] ∧ Extracted.Config.tidyReassignsConfig = false ∧
+    Extracted.Config.tidyWritesLoadedConfig = true := by decide
+
+/-- the two `RunE` bodies (flag handling, resolver construction, error paths): unchanged -/
+theorem command_bodies_ok :
+    Extracted.Config.getRunBody = Expected.Config.getRunBody ∧
+    Extracted.Config.tidyRunBody = Expected.Config.tidyRunBody := ⟨rfl, rfl⟩
+
 /-- everything else about the modelled functions: unchanged since the model was written -/
 theorem bodies_ok :
     Extracted.Config.loadBody = Expected.Config.loadBody ∧
